@@ -156,6 +156,12 @@ type generator struct {
 // generating a new such node if none exist.
 func (gen *generator) node(dst graph.NodeAdder, id string) graph.Node {
 	if n, ok := gen.ids[id]; ok {
+		if gen.isInSubgraph() {
+			// The node is a member of the active subgraph
+			// even if it has been seen before; duplicates
+			// are removed by popSubgraph.
+			gen.appendSubgraphNode(n)
+		}
 		return n
 	}
 	n := dst.NewNode()
